@@ -83,7 +83,8 @@ def check(case, ctx):
     no, ch = GR.SETTINGS[case["setting"]]
     g = GR.group(no, ch)
     pos = position(case)
-    name = g.name
+    al = GR.aliases(no, ch)
+    name = al[case["x"][0] % len(al)] if case["x"][1] % 3 == 0 else g.name
     if case["upper"]:
         name = name.upper()
     if case["blank"]:
